@@ -791,6 +791,13 @@ func (m *mcase) cancelFrame(c *mcall) {
 	if m.cut {
 		return
 	}
+	if m.closing {
+		// a frame written to a connection the server has just closed is answered with a TCP reset,
+		// and a reset that overtakes the observer's reads discards frames the server wrote before it
+		// closed (C07's known finding c07:close-reset-loses-response, not C10's subject): let the
+		// observer read what is in flight before it writes
+		m.rw.settle(6 * time.Millisecond)
+	}
 	if m.rw.sendCancel(c.id) != nil {
 		return
 	}
@@ -1569,6 +1576,11 @@ func engineRespWire(rng *rand.Rand, n int, tier string, o *Out) {
 
 	// ---- 4. the same observer in front of a real relay
 	engineRespWireRelay(rng, nRelay, o, judge)
+
+	// ---- 5. C10, strengthening V10: a call req declined by the re-check of handleCallReq (Close
+	// raced with its admission while another call keeps the connection draining) whose handler
+	// would answer with a system error (engine_c10admit.go)
+	c10AdmitCases(rng, tier, o)
 }
 
 func engineRespWireRelay(rng *rand.Rand, nRelay int, o *Out, judge func(sub, cid string, rw *rwConn, reqs []freeReq, relayed bool, expectComplete bool)) {
